@@ -41,7 +41,7 @@ def main():
         for p in props:
             t0 = time.time()
             # evidence of runs on a changed tree must not overwrite the committed evidence
-            c = sh("cd %s && VERIF_EVIDENCE_DIR=%s/.work/mutation-evidence python3 harness/check.py %s --tier %s" % (VERIF, VERIF, p, tier))
+            c = sh("cd %s && VERIF_EVIDENCE_DIR=%s/.work/mutation-evidence VERIF_REPLAY_DIR=%s/.work/mutation-replays python3 harness/check.py %s --tier %s" % (VERIF, VERIF, VERIF, p, tier))
             lines = [l for l in c.stdout.split("\n") if l.startswith("VIOLATION")]
             what = [l for l in c.stdout.split("\n") if l.startswith("   ") and ":" in l][:2]
             status = "DETECTED" if (c.returncode == 1 and lines) else ("missed" if c.returncode == 0 else "error rc=%d" % c.returncode)
